@@ -1,6 +1,7 @@
 package gen
 
 import (
+	"unicode/utf8"
 	"fmt"
 	"math/rand"
 	"strings"
@@ -127,6 +128,17 @@ func HostileInputs(pattern string, rng *rand.Rand) []string {
 		}
 	}
 	out = append(out, lit.String())
+	// a pattern of many kilobytes used as its own input multiplies the cost of every iterating call
+	// (one step per position): keep the first 1,500 bytes of such inputs
+	for i, in := range out {
+		if len(in) > 1500 {
+			cut := 1500
+			for cut > 0 && !utf8.RuneStart(in[cut]) {
+				cut--
+			}
+			out[i] = in[:cut]
+		}
+	}
 	// a text the pattern is likely to match, or almost match, read off its syntax; with prefixes and
 	// suffixes of it, so that the input ends (or begins) in the middle of what the pattern expects
 	for k := 0; k < 1; k++ {
